@@ -104,4 +104,4 @@ Theorem C01_byte_level_results_are_the_ideal_map_s : forall ops s sp s' outs,
   wstore_run s ops = Ok (s', outs) -> wagree_run sp ops outs.
 Proof. exact wstore_run_agrees. Qed.
 
-Example C01_nonvacuous_whistory := Io_wrun.ex_wrun.
+Example C01_nonvacuous_whistory := (Io_wrun.ex_wrun, Io_wrun.whistory_hypotheses).
